@@ -99,6 +99,9 @@ def replay(repro: dict):
     for i, a, p, pl in repro["ledger"]:
         ledger.entries.add((i, a, bytes.fromhex(p), bytes.fromhex(pl)))
     det = bytes.fromhex(repro["detached"]) if repro.get("detached") is not None else None
+    if "transport-confusion" in (repro.get("faults") or []):
+        r = W.deliver(repro["entry"], repro["ser"], conf.build(), None, bare=bool(repro.get("default_algorithms")))
+        return [("%s:unsigned-content-returned:jwe-to-verifiers-key" % repro["entry"], "accepted")] if r.accepted else []
     _, bad, _ = check_delivery(repro["entry"], repro["ser"], det, conf, ledger, repro.get("registry"))
     return bad
 
@@ -332,6 +335,29 @@ def run(rng: Rng, tier: str, index: int) -> RunResult:
                 attack("algconf.hmac-with-public-key", "%s keyed with %s encoding of the verifier's public key" % (halg, name),
                        forged.ser, forged.detached)
 
+    # ---- transport confusion: content *encrypted to* the verifier's key instead of signed (anyone can make that) ----
+    if form == "compact" and rkeys[0].kty in ("RSA", "EC", "OKP") and rkeys[0].priv is not None and rkeys[0].crv not in ("Ed25519", "Ed448"):
+        from ..refjose import jwe as rjwe
+        from .. import jweworld as JW
+        JW.ensure_drafts_registered()
+        holder = W.KeyConf(rng.pick(["key", "set", "callable-key"]), [rkeys[0]], private=True)      # a service that signs and verifies with one key
+        for jalg, jenc in ((("RSA-OAEP", "A128GCM"), ("RSA-OAEP-256", "A256GCM")) if rkeys[0].kty == "RSA" else (("ECDH-ES", "A128GCM"), ("ECDH-ES+A128KW", "A128CBC-HS256"))):
+            try:
+                forged = rjwe.build("compact", {"alg": jalg, "enc": jenc, "typ": "JWT"}, b'{"sub":"attacker","admin":true}',
+                                    [rjwe.Rcpt(jalg, rkeys[0].public())], rng.sub("jwe-for-verifier")).ser
+            except Exception:
+                continue
+            for e in ("jwt.decode", "deserialize_compact", "extract+validate"):
+                for regspec in (None, "default"):
+                    res.case(index, alg, form, "transport-confusion", jalg, e, regspec)
+                    res.fired("attacker:jwe-to-the-verifiers-public-key")
+                    r = W.deliver(e, forged, holder.build(), None, bare=(regspec == "default"))
+                    tr.add("tc", jalg, e, regspec, r.accepted)
+                    if r.accepted:
+                        res.violation(ID, "%s:unsigned-content-returned:jwe-to-verifiers-key" % e,
+                                      "a five-segment token encrypted (%s) to the verifier's public key was returned as verified content by %s" % (jalg, e),
+                                      {"entry": e, "ser": forged, "detached": None, "conf": _conf_json(holder), "ledger": [], "faults": ["transport-confusion"],
+                                       "registry": None, "companion": None, "default_algorithms": regspec == "default"})
     # ---- cross-protocol: unencoded-payload token at the plain entry points, lenient header check ----
     if form in ("c7797", "f7797"):
         # every registry that lets the b64 header through, at every entry point that does not implement unencoded payloads
